@@ -6,9 +6,21 @@ from checks_config import PROPS
 from manifest_text import TEXT, NOT_YET
 
 ALL = ["C%02d" % i for i in range(1, 20)]
+HERE = os.path.dirname(os.path.abspath(__file__))
+
+
+def has_theorems(pid):
+    import re
+    for m in PROPS[pid]["lean_modules"]:
+        p = os.path.join(HERE, "lean", m.replace(".", "/") + ".lean")
+        if os.path.exists(p) and re.search(r"^theorem\s", open(p).read(), re.M):
+            return True
+    return False
+
+
 checks = []
 for pid in ALL:
-    if pid not in PROPS or pid not in TEXT:
+    if pid not in PROPS or pid not in TEXT or not has_theorems(pid):
         continue
     t = TEXT[pid]
     checks.append({
@@ -22,7 +34,7 @@ for pid in ALL:
         "level_note": t["note"],
         "technique": t["technique"],
     })
-na = [{"property_id": pid, "reason": NOT_YET.get(pid, "check not built yet in this round; planned (DESIGN.md section 8)")} for pid in ALL if pid not in PROPS or pid not in TEXT]
+na = [{"property_id": pid, "reason": NOT_YET.get(pid, "check not built yet in this round; planned (DESIGN.md section 8)")} for pid in ALL if pid not in PROPS or pid not in TEXT or not has_theorems(pid)]
 m = {
     "version": 1,
     "setup_cmd": "./setup",
